@@ -294,8 +294,8 @@ def no_exit_before_yield_rule(run, f, rid):
 LIMIT_TABLES = ("syscall::unix::SEND_TIME_LIMIT", "syscall::unix::RECV_TIME_LIMIT")
 LIMIT_WRITERS = {
     # function -> operations it may perform, and why the value it writes is that descriptor's own
-    "syscall::unix::send_time_limit": {"insert"},       # lazy fill: getsockopt(fd) of the same fd
-    "syscall::unix::recv_time_limit": {"insert"},
+    "syscall::unix::send_time_limit": {"insert", "entry"},       # lazy fill: getsockopt(fd) of the same fd
+    "syscall::unix::recv_time_limit": {"insert", "entry"},
     "<syscall::unix::setsockopt::NioSetsockoptSyscall as syscall::unix::setsockopt::SetsockoptSyscall>::setsockopt": {"insert"},   # the value just set on fd
     "<syscall::unix::close::NioCloseSyscall as syscall::unix::close::CloseSyscall>::close": {"remove"},                             # fd is gone
 }
@@ -774,3 +774,63 @@ def grow_size_rule(run, f, rid):
             run.ok(rid, key, "max(stack_size, red_zone)")
         else:
             run.fail(rid, key, b.loc(t.get("line")), "the segment allocated for the callback has a size derived from %s only: with red_zone > stack_size the callback runs with less stack than the red zone it was promised" % (sorted(n for n in names if n) or "a constant"))
+
+
+# ------------------------------------------------------------------ C19: the lazy fill asks the kernel for the matching option
+def fill_option_rule(run, f, rid):
+    """send_time_limit caches what getsockopt(fd, SOL_SOCKET, SO_SNDTIMEO) says, recv_time_limit what SO_RCVTIMEO says, each in
+    its own table and about its own descriptor argument.  Judged on each function as one unit, so a shared helper taking the
+    table and the option as arguments is read with the arguments the entry point passes."""
+    run.rule(rid, "the lazy fill of each limit table reads the matching socket option of its own descriptor argument", floor=2, template="T5 (constants and provenance on the unit)")
+    for fn, opt, optname, tbl in (("syscall::unix::send_time_limit", "21", "SO_SNDTIMEO", "syscall::unix::SEND_TIME_LIMIT"),
+                                  ("syscall::unix::recv_time_limit", "20", "SO_RCVTIMEO", "syscall::unix::RECV_TIME_LIMIT")):
+        b = unit(run, rid, f, fn)
+        if b is None:
+            continue
+        du = DefUse(b)
+        gs = [(x, t) for (x, t) in b.calls() if norm(t.get("callee") or "").endswith("::getsockopt") or norm(t.get("callee") or "") == "libc::getsockopt"]
+        why = []
+        if len(gs) != 1:
+            why.append("expected one getsockopt call (found %d)" % len(gs))
+        else:
+            x, t = gs[0]
+
+            def through_capture(d, depth=4):
+                """a value read from a closure's environment (`(*env).i`, the closure spliced into the unit): what the
+                closure was built with at that position"""
+                while depth > 0 and isinstance(d, tuple) and d and d[0] == "proj":
+                    depth -= 1
+                    inner = d[1]
+                    idx = None
+                    while isinstance(inner, tuple) and inner and inner[0] == "proj":
+                        m_ = [p_ for p_ in (inner[2] if isinstance(inner[2], (list, tuple)) else [inner[2]]) if isinstance(p_, str) and p_.startswith(".") and p_[1:].isdigit()]
+                        idx = int(m_[-1][1:]) if m_ else idx
+                        inner = inner[1]
+                    if not (isinstance(inner, tuple) and inner and inner[0] == "closure" and idx is not None):
+                        break
+                    op = None
+                    for blk in b.blocks:
+                        for s_ in blk["stmts"]:
+                            if s_["k"] == "assign" and s_["rhs"]["k"] == "agg" and norm(s_["rhs"].get("closure") or "") == inner[1] and idx < len(s_["rhs"]["ops"]):
+                                op = s_["rhs"]["ops"][idx]
+                    if op is None:
+                        break
+                    d = describe_val(b, du, op)
+                    if isinstance(d, tuple) and d and d[0] == "ref":
+                        d = d[1]
+                return d
+            lvl, name = through_capture(describe_val(b, du, t["args"][1])), through_capture(describe_val(b, du, t["args"][2]))
+            if not (lvl and lvl[0] == "const" and str(lvl[1]) == "1"):
+                why.append("the level is not SOL_SOCKET (%r)" % (lvl,))
+            if not (name and name[0] == "const" and str(name[1]) == opt):
+                why.append("the option read is %r, not %s (%s)" % (name, optname, opt))
+            if set(backward(b, t["args"][0], du, at=(x, "term"), through_calls="none").params) != {1}:
+                why.append("the descriptor asked about is not the function's own argument")
+        from analysis.flow import static_of
+        tabs = {static_of(b, du, tt["args"][0]) for (_y, tt) in b.calls() if norm(tt.get("callee") or "").startswith("dashmap::DashMap::") and tt["args"]} - {None}
+        if tabs != {tbl}:
+            why.append("the table used is %s, expected %s only" % (sorted(tabs), tbl.rsplit("::", 1)[1]))
+        if why:
+            run.fail(rid, fn.rsplit("::", 1)[1] + "/fill-option", b.loc(), "%s: %s" % (fn.rsplit("::", 1)[1], "; ".join(why)))
+        else:
+            run.ok(rid, fn.rsplit("::", 1)[1] + "/fill-option", "getsockopt(fd, SOL_SOCKET, %s) -> %s" % (optname, tbl.rsplit("::", 1)[1]))
